@@ -19,6 +19,10 @@ pub struct FileEnt {
 pub struct C04Doc {
     pub a: Vec<FileEnt>,
     pub b: Vec<FileEnt>,
+    /// how the two roots are spelled when handed to `create`: bit 0 = A with a trailing slash,
+    /// bit 1 = B with a trailing slash
+    #[serde(default)]
+    pub spell: u8,
 }
 
 pub const PROBES: [&str; 13] = [
@@ -190,7 +194,8 @@ pub fn generate(seed: u64, tier: Tier) -> Doc {
         io_faults.push(IoFault { op: 1, call, nth, kind, sticky: false, path_contains: None });
         cfg = Cfg::Hostile;
     }
-    Doc { prop: "C04".into(), seed, cfg, benign, io_faults, body: Body::C04(C04Doc { a, b }) }
+    let spell = if r.chance(1, 5) { 1 + r.below(3) as u8 } else { 0 };
+    Doc { prop: "C04".into(), seed, cfg, benign, io_faults, body: Body::C04(C04Doc { a, b, spell }) }
 }
 
 pub fn directed() -> Vec<Doc> {
@@ -218,6 +223,7 @@ pub fn directed() -> Vec<Doc> {
             f("d0/d2/inner", 5, 12),
             f("d0/d2-old", 5, 13),
         ],
+        spell: 0,
     };
     let mut out = vec![];
     for (i, (cfg, benign)) in [
@@ -247,11 +253,21 @@ pub fn directed() -> Vec<Doc> {
             body: Body::C04(body.clone()),
         });
     }
+    for (i, spell) in [1u8, 2, 3].into_iter().enumerate() {
+        out.push(Doc {
+            prop: "C04".into(),
+            seed: 0xD1EC7ED0 + 2 + i as u64,
+            cfg: Cfg::Quiet,
+            benign: Benign::quiet(),
+            io_faults: vec![],
+            body: Body::C04(C04Doc { spell, ..body.clone() }),
+        });
+    }
     out
 }
 
 fn shape_hash(b: &C04Doc) -> u64 {
-    let mut h = FNV_INIT;
+    let mut h = fnv1a(FNV_INIT, &[b.spell]);
     for (tag, list) in [(1u8, &b.a), (2u8, &b.b)] {
         for e in list {
             h = fnv1a(h, &[tag]);
@@ -352,7 +368,9 @@ pub fn run(doc: &Doc, body: &C04Doc, trace: bool) -> RunResult {
     fs.clear_mutations();
 
     // op 0: create
-    let patch = h.op(0, "ZiPatch::create", input_bytes, || ZiPatch::create(A, B)).done();
+    let root_a = if body.spell & 1 != 0 { format!("{}/", A) } else { A.to_string() };
+    let root_b = if body.spell & 2 != 0 { format!("{}/", B) } else { B.to_string() };
+    let patch = h.op(0, "ZiPatch::create", input_bytes, || ZiPatch::create(&root_a, &root_b)).done();
     let muts = fs.mutations();
     if let Some(m) = muts.iter().find(|m| m.path.starts_with(A) || m.path.starts_with(B) || m.path.starts_with(T)) {
         h.violate(
@@ -463,6 +481,11 @@ pub fn run(doc: &Doc, body: &C04Doc, trace: bool) -> RunResult {
 
 pub fn shrink(b: &C04Doc) -> Vec<C04Doc> {
     let mut out = vec![];
+    if b.spell != 0 {
+        let mut n = b.clone();
+        n.spell = 0;
+        out.push(n);
+    }
     for i in 0..b.a.len() {
         let mut n = b.clone();
         n.a.remove(i);
